@@ -51,7 +51,7 @@ def _depths_for(draw, lo, hi, n, allow_outside=True):
 
 @st.composite
 def index_cases(draw):
-    spec = draw(gens.exp_ice_specs())
+    spec = draw(gens.exp_ice_specs(buried=True))
     lo, hi = spec["range"]
     zs = _depths_for(draw, lo, hi, draw(st.integers(1, 8)))
     scalar_kind = draw(st.sampled_from(["float", "np.float64", "int_if_integral"]))
@@ -60,7 +60,7 @@ def index_cases(draw):
 
 @st.composite
 def inverse_cases(draw):
-    spec = draw(gens.exp_ice_specs())
+    spec = draw(gens.exp_ice_specs(buried=True))
     lo, hi = spec["range"]
     zs = _depths_for(draw, lo, hi, draw(st.integers(1, 6)), allow_outside=False)
     # raw index values from below n(top) to above n0
@@ -246,10 +246,13 @@ def check_inverse(case, rec):
                 "depth_with_index(index(%r)=%r) = %r is not a finite scalar (ice %r)",
                 z, n, zr, spec)
         zr = float(zr)
-        require(lo - 1e-9 <= zr <= hi + 1e-9,
-                "depth_with_index(%r)=%r outside the valid range %r", n, zr, spec["range"])
         slope = k * a * math.exp(a * z)
         tol = 8 * EPS * n0 / slope + 1e-9
+        # (an index between those of the two range edges is inverted, not clamped; the inverse is
+        # known to 8 ulp of n0 over the slope only, so it may leave the range by that much where
+        # the profile is flat - a buried range whose top is near the asymptote)
+        require(lo - tol <= zr <= hi + tol,
+                "depth_with_index(%r)=%r outside the valid range %r", n, zr, spec["range"])
         if tol < 1.0:
             resolvable += 1
             classes.add("resolvable")
@@ -271,7 +274,8 @@ def check_inverse(case, rec):
                 "depth_with_index(%r) = %r is not a finite scalar (ice %r)", n, zr, spec)
         zr = float(zr)
         scal.append(zr)
-        require(lo - 1e-9 <= zr <= hi + 1e-9,
+        tol_n = 8 * EPS * n0 / (k * a * math.exp(a * min(hi, max(lo, zr)))) + 1e-9
+        require(lo - tol_n <= zr <= hi + tol_n,
                 "depth_with_index(%r)=%r outside the valid range %r", n, zr, spec["range"])
         if n < n_top:
             classes.add("clamp_top")
